@@ -136,8 +136,9 @@ static std::string apply_op(Objs& objs, const std::vector<std::string>& w) {
     if (o.ty == 'i') o.i.reset(new SkI(*a->second.i));
     else if (o.ty == 'd') o.d.reset(new SkD(*a->second.d));
     else o.s.reset(new SkS(*a->second.s));
-    objs[atoi(w[2].c_str())] = std::move(o);
-    return obs_obj(a->second);
+    const int dst = atoi(w[2].c_str());
+    objs[dst] = std::move(o);
+    return obs_obj(objs[dst]);
   }
   return "bad-op";
 }
